@@ -21,6 +21,21 @@ type JPEGDHT struct {
 	Bits      [17]int
 	Vals      []byte
 	Offset    int // position of the table inside the stream (DHT before/after SOF)
+	// Complete: the code lengths exhaust the code space, i.e. the last code word of the
+	// longest length is all 1 bits, which T.81 C.2 / K.2 reserve ("the codes shall be
+	// generated such that the all-1-bits code word of any length is reserved").
+	Complete bool
+}
+
+// CompleteDHT returns the first Huffman table specification that assigns the reserved
+// all-ones code word, or nil.
+func (inf *JPEGInfo) CompleteDHT() *JPEGDHT {
+	for k := range inf.DHTs {
+		if inf.DHTs[k].Complete {
+			return &inf.DHTs[k]
+		}
+	}
+	return nil
 }
 
 type JPEGScan struct {
@@ -186,7 +201,7 @@ func WalkJPEG(d []byte) (*JPEGInfo, error) {
 						code <<= 1
 					}
 				}
-				_ = maxLen
+				h.Complete = maxLen > 0 && code == 1<<16
 				inf.DHTs = append(inf.DHTs, h)
 			}
 		case m == 0xDD: // DRI
